@@ -666,6 +666,9 @@ func (t *ControllableTask) Kill() error {
 		pid          = 0
 		reachedState = "UNKNOWN" // FIXME: should be LAUNCHING or similar
 	)
+	if t.rpc == nil {
+		return errors.New("cannot kill task: RPC is down (task not ready yet or already being killed)")
+	}
 	cxt, cancel := context.WithTimeout(context.Background(), KILL_TRANSITION_TIMEOUT)
 	defer cancel()
 	response, err := t.rpc.GetState(cxt, &pb.GetStateRequest{}, grpc.EmptyCallOption{})
